@@ -15,6 +15,7 @@ KINDS14 = ["function", "macro", "option", "set", "add_test", "ct_add_test", "cpp
 
 class Prop(BaseProp):
     ID = "C02"
+    PIPELINES = True      # a fixed share of the cases goes through cminx.main (-o and stdout) instead of the Documenter
     ANCHORS = ['cminx.aggregator:DocumentationAggregator.enterDocumented_command', 'cminx.aggregator:DocumentationAggregator.enterCommand_invocation', 'cminx.aggregator:DocumentationAggregator.process_generic_command', 'cminx.documenter:Documenter.process_docs']
     LEVEL = "exploration"
     RULE = ("abstract modules (1-8 top-level items, nesting <=3, every item independently documented, annotation "
